@@ -9,6 +9,7 @@ import (
 	"context"
 	"errors"
 	"fmt"
+	"math"
 	"math/rand/v2"
 	"runtime"
 	"sync"
@@ -153,6 +154,49 @@ func TestOnceStress(t *testing.T) {
 			break
 		}
 	}
+	// key identity is Go's ==, nothing else: equal keys that print differently (+0 and -0, a pointer whose
+	// pointee changes, a Stringer with a moody String method) are one key, constructed once
+	{
+		var nf atomic.Int32
+		ocF := syncutil.NewOnceConstructor(func(k float64) *obj { return &obj{0, int(nf.Add(1))} })
+		negZero := math.Copysign(0, -1)
+		a, b := ocF.Get(0), ocF.Get(negZero)
+		type fk struct {
+			X float64
+			S string
+		}
+		var ns atomic.Int32
+		ocS := syncutil.NewOnceConstructor(func(k fk) *obj { return &obj{0, int(ns.Add(1))} })
+		c, d := ocS.Get(fk{0, "x"}), ocS.Get(fk{negZero, "x"})
+		type pointee struct{ n int }
+		var np atomic.Int32
+		ocP := syncutil.NewOnceConstructor(func(k *pointee) *obj { return &obj{0, int(np.Add(1))} })
+		pk := &pointee{}
+		first := ocP.Get(pk)
+		samePtr := true
+		for i := 1; i <= 64; i++ {
+			pk.n = i
+			samePtr = samePtr && ocP.Get(pk) == first
+		}
+		var nm atomic.Int32
+		ocM := syncutil.NewOnceConstructor(func(k moody) *obj { return &obj{0, int(nm.Add(1))} })
+		m0 := ocM.Get(moody{7})
+		sameMoody := true
+		for i := 0; i < 64; i++ {
+			sameMoody = sameMoody && ocM.Get(moody{7}) == m0
+		}
+		calls.Add(4 + 64 + 65)
+		switch {
+		case a != b || nf.Load() != 1:
+			r.Violation("once-key-zero", fmt.Sprintf("OnceConstructor[float64]: Get(+0) and Get(-0) (equal keys) gave %p and %p, constructor ran %d times", a, b, nf.Load()), map[string]any{"key": "float zero"})
+		case c != d || ns.Load() != 1:
+			r.Violation("once-key-struct", fmt.Sprintf("OnceConstructor with a struct key holding +0 / -0: two results, constructor ran %d times", ns.Load()), map[string]any{"key": "struct with float zero"})
+		case !samePtr || np.Load() != 1:
+			r.Violation("once-key-pointer", fmt.Sprintf("OnceConstructor with a pointer key whose pointee changes between Gets: constructor ran %d times", np.Load()), map[string]any{"key": "pointer"})
+		case !sameMoody || nm.Load() != 1:
+			r.Violation("once-key-stringer", fmt.Sprintf("OnceConstructor with a key whose String() differs from call to call: constructor ran %d times", nm.Load()), map[string]any{"key": "stringer"})
+		}
+	}
 	r.Eval(calls.Load())
 	r.NontrivialN(concurrentRounds.Load())
 	r.Count("rounds", int64(rounds))
@@ -248,3 +292,10 @@ func TestSemaStress(t *testing.T) {
 		t.Fail()
 	}
 }
+
+// moody is a comparable key whose printed form changes from call to call.
+type moody struct{ id int }
+
+var moodyN atomic.Int64
+
+func (m moody) String() string { return fmt.Sprintf("moody-%d-%d", m.id, moodyN.Add(1)) }
